@@ -70,6 +70,8 @@ def load_file(path: Path, contracts: dict[str, Contract], helpers: dict[str, ast
                             ast.parse(v.value, mode="eval").body, known=None  # type: ignore[union-attr]
                         )
                     c._types_src = val  # re-parsed with class knowledge at bind time
+                elif key == "ghost":
+                    c.ghost = dict(ast.literal_eval(val))
                 elif key == "pure":
                     c.pure = bool(ast.literal_eval(val))
                 elif key == "trusted":
@@ -93,7 +95,7 @@ def bind_all(contracts: dict[str, Contract]) -> None:
             raise BindingError(f"contract target {target} not found in the current source: {e}") from e
         a = fi.node.args
         params = {p.arg for p in list(a.posonlyargs) + list(a.args) + list(a.kwonlyargs)}
-        allowed = params | {"result"}
+        allowed = params | {"result"} | set(c.ghost)
         lams: list[ast.expr] = list(c.clauses.values()) + list(c.raises.values())
         for lam in lams:
             if isinstance(lam, ast.Lambda):
